@@ -279,7 +279,11 @@ func c08History(run *hx.Run, o *hx.Oracle, dir string, h int, steps int) {
 	for step := 1; step <= steps; step++ {
 		version++
 		var w c08Write
-		switch k := rng.Intn(16); k {
+		switch k := rng.Intn(17); k {
+		case 15:
+			// the same index NAME with another definition (direction / collation / columns)
+			def := []string{"v DESC", "v, pad COLLATE NOCASE", "pad COLLATE RTRIM DESC, v", "v"}[rng.Intn(4)]
+			w = c08Write{"recreate-index-same-name", []string{"DROP INDEX IF EXISTS ix_t_v", "CREATE INDEX ix_t_v ON t(" + def + ")"}}
 		case 14:
 			// same lengths, same overflow pages, other bytes
 			w = c08Write{"rewrite-big", []string{fmt.Sprintf("UPDATE b SET ver=%d, body=replace(body, substr(body, 1, 1), char(%d))", version, 66+version%25)}}
@@ -366,7 +370,85 @@ func c08History(run *hx.Run, o *hx.Oracle, dir string, h int, steps int) {
 				}
 			}
 		}
-		// sometimes the very first call after the commit is Columns() / a low-level schema call
+		// which call comes first after the commit rotates: an indexed read through ix_t_v (definition and root page
+		// may both be new), Columns(), or the full comparison below
+		switch first := rng.Intn(4); first {
+		case 0, 1:
+			var ixInfo *hx.IndexInfo
+			var tInfo *hx.TableInfo
+			if meta, err := hx.LoadMeta(o, path); err == nil {
+				for ti := range meta.Tables {
+					if meta.Tables[ti].Name == "t" {
+						tInfo = &meta.Tables[ti]
+						for ii := range tInfo.Indexes {
+							if tInfo.Indexes[ii].Name == "ix_t_v" {
+								ixInfo = &tInfo.Indexes[ii]
+							}
+						}
+					}
+				}
+			}
+			if ixInfo != nil {
+				cols := tInfo.ColNames()
+				sel := append([]string{tInfo.RowidName()}, cols...)
+				if order, err := hx.OrderByIndex(ixInfo, hx.GenIndexMeta{}, tInfo.RowidName()); err == nil {
+					if want, err := o.Query(path, fmt.Sprintf("SELECT %s FROM t ORDER BY %s", strings.Join(quoteCols(sel), ", "), order)); err == nil {
+						var got []hx.Row
+						var gerr error
+						var pm string
+						if first == 0 {
+							got, gerr, pm = collectIndexed(db, "t", "ix_t_v", sel)
+						} else if len(want) > 0 {
+							// equality on the first row's key columns
+							kc := ixInfo.KeyCols()
+							var key sqlittle.Key
+							okKey := true
+							for _, c := range kc {
+								found := false
+								for ci, name := range sel {
+									if c.Name != nil && name == *c.Name {
+										key = append(key, want[0][ci])
+										found = true
+									}
+								}
+								if !found {
+									okKey = false
+								}
+							}
+							if okKey {
+								var conds []string
+								for i, c := range kc {
+									conds = append(conds, fmt.Sprintf("(+%s) COLLATE %s IS ?%d", hx.QuoteIdent(*c.Name), *c.Coll, i+1))
+								}
+								want, err = o.Query(path, fmt.Sprintf("SELECT %s FROM t WHERE %s ORDER BY %s", strings.Join(quoteCols(sel), ", "), strings.Join(conds, " AND "), order), []hx.Value(key)...)
+								if err == nil {
+									got, gerr, pm = collectIndexedEq(db, "t", "ix_t_v", key, sel)
+								} else {
+									want, got = nil, nil
+								}
+							} else {
+								want, got = nil, nil
+							}
+						}
+						run.Eval(1)
+						opn := []string{"IndexedSelect", "IndexedSelectEq"}[first]
+						if pm != "" {
+							fail("panic", opn+" as the first call after the commit: "+firstLines(pm, 2), step)
+							return
+						}
+						if gerr != nil {
+							fail("read-error/"+opn+"-first-call/"+w.kind, fmt.Sprintf("%s(t, ix_t_v) as the first call after the commit: %v", opn, gerr), step)
+							return
+						}
+						if df := diffRows(want, got); df != "" {
+							fail("stale/"+opn+"-first-call", fmt.Sprintf("%s(t, ix_t_v) as the first call after the commit differs from SQLite's current content: %s", opn, df), step)
+							return
+						}
+						run.See("first_call_after_commit", opn)
+					}
+				}
+			}
+		}
 		if rng.Intn(2) == 0 {
 			wantCols, err := o.Query(path, "SELECT name FROM pragma_table_info('t') ORDER BY cid")
 			if err == nil {
